@@ -2471,22 +2471,39 @@ func newRepo(uuid dvid.UUID, v dvid.VersionID, id dvid.RepoID, passcode string) 
 }
 
 func (r *repoT) branchHeads() map[string]dvid.UUID {
-	// The head of a branch is the node without a child on the same branch.  It can still
-	// have children on other branches.
 	branchToUUID := make(map[string]dvid.UUID)
 	for _, node := range r.dag.nodes {
-		isHead := true
-		for _, childV := range node.children {
-			if child, found := r.dag.nodes[childV]; found && child.branch == node.branch {
-				isHead = false
-				break
+		if _, found := branchToUUID[node.branch]; !found {
+			if head := r.dag.branchHead(node.branch); head != nil {
+				branchToUUID[node.branch] = head.uuid
 			}
-		}
-		if isHead {
-			branchToUUID[node.branch] = node.uuid
 		}
 	}
 	return branchToUUID
+}
+
+// branchHead returns the head of a branch as the run-time cache tracks it: the most recently
+// created node of the branch that is not a merge node.  Only new versions and branches move the
+// cached head; a merge node is filed on the master branch whatever its parents are and does
+// not, so it only counts when nothing else is left.
+func (d *dagT) branchHead(branch string) (head *nodeT) {
+	var mergeHead *nodeT
+	for _, node := range d.nodes {
+		if node.branch != branch {
+			continue
+		}
+		if len(node.parents) > 1 {
+			if mergeHead == nil || node.version > mergeHead.version {
+				mergeHead = node
+			}
+		} else if head == nil || node.version > head.version {
+			head = node
+		}
+	}
+	if head == nil {
+		head = mergeHead
+	}
+	return
 }
 
 // For all data tiers of storage, remove data kv pairs associated with this data instance.
@@ -3121,11 +3138,13 @@ func (d *dagT) getAncestryByBranch(branch string) (ancestry []dvid.UUID, err err
 	// find leaf for this branch.
 	var branchName string
 	var branchNode *nodeT
-	for _, node := range d.nodes {
-		if node.branch == branch || (branch == "master" && node.branch == "") {
-			branchNode = node
-			branchName = node.branch
-		}
+	// Start from the head of the branch: merge nodes are filed on master without being linked
+	// to master's other nodes, so an arbitrary start could end at another leaf.
+	if branch == "master" {
+		branch = ""
+	}
+	if branchNode = d.branchHead(branch); branchNode != nil {
+		branchName = branchNode.branch
 	}
 	if branchNode == nil {
 		ancestry = []dvid.UUID{}
